@@ -113,6 +113,7 @@ func (st *Stack) boot(ctx context.Context) error {
 		return cerrors.Errorf("pipeline init: %w", err)
 	}
 	st.w.log(Event{Kind: "BOOT", Inc: st.inc})
+	st.w.bootedInc = st.inc
 	if err := st.life.Init(ctx); err != nil {
 		return cerrors.Errorf("lifecycle init: %w", err)
 	}
